@@ -1315,3 +1315,91 @@ func TestPropEmbeddedInlineStructs(t *testing.T) {
 		recEmb.MaybeSample(nt, func() any { return show })
 	})
 }
+
+// ---------------------------------------------------------------------------
+// Two different struct types may print the same name: `type target struct{...}` declared inside two
+// functions (the habit of table tests), or in two packages with the same last path element. What a
+// type's fields are is a matter of the type, not of its printed name, nor of which type came first.
+
+func sameNameA() any {
+	type target struct {
+		Title string         `yaml:"title"`
+		Rest  map[string]any `yaml:",inline"`
+		Name  string         `yaml:"alias" aliases:"name"`
+	}
+	return &target{}
+}
+
+func sameNameB() any {
+	type target struct {
+		Name  string         `yaml:"name"`
+		Title string         `yaml:"heading" aliases:"title"`
+		Count int            `yaml:"count"`
+		Rest  map[string]any `yaml:",inline"`
+	}
+	return &target{}
+}
+
+func sameNameC() any {
+	type target struct {
+		Count string `yaml:"title"`
+		Owner string `yaml:"owner"`
+	}
+	return &target{}
+}
+
+var recSameName = ev.New("TestPropSameNamedTypes", "three struct types that all print as `c16.target` (declared in three functions) with different fields, tags, alias lists and inline fields, unmarshalled in a drawn order (with repeats) from one document over a subset of the keys title / name / alias / heading / count / owner / extra; each result must equal yaml.v3's decode of the same document into the same type (alias keys left out of the comparison document); non-trivial = all three types met in one process; distinct by (order, document)")
+
+func TestPropSameNamedTypes(t *testing.T) {
+	makers := []func() any{sameNameA, sameNameB, sameNameC}
+	ev.Check(t, 600, 20000, func(t *rapid.T) {
+		m := ordered.NewMap[string, any](0)
+		for _, k := range rapid.Permutation([]string{"title", "name", "heading", "count", "owner", "extra"}).Draw(t, "keys") {
+			if !rapid.Bool().Draw(t, "has") {
+				continue
+			}
+			if k == "count" {
+				// `count` is an int in one type and unknown to the others
+				continue
+			}
+			m.Set(k, k+"-value")
+		}
+		order := rapid.SliceOfN(rapid.IntRange(0, 2), 2, 6).Draw(t, "order")
+		seen := map[int]bool{}
+		for _, which := range order {
+			seen[which] = true
+			got := makers[which]()
+			if err := ordered.Unmarshal(m, got); err != nil {
+				t.Fatalf("Unmarshal into type %d: %v", which, err)
+			}
+			// reference: yaml.v3 on a document in which every alias key is renamed to the field's own key
+			// when that is absent (the stated alias rule), so that yaml.v3 - which knows no aliases - agrees
+			ref := ordered.NewMap[string, any](0)
+			m.Range(func(k string, v any) error { ref.Set(k, v); return nil })
+			switch which {
+			case 0:
+				if v, ok := ref.Get("name"); ok && !ref.Contains("alias") {
+					ref.Replace("name", "alias", v)
+				}
+			case 1:
+				if v, ok := ref.Get("title"); ok && !ref.Contains("heading") {
+					ref.Replace("title", "heading", v)
+				}
+			}
+			yb, err := yaml.Marshal(ref)
+			if err != nil {
+				t.Fatalf("harness: %v", err)
+			}
+			want := makers[which]()
+			if err := yaml.Unmarshal(yb, want); err != nil {
+				t.Fatalf("harness: yaml.v3 refuses the document: %v\n%s", err, yb)
+			}
+			gj, _ := json.Marshal(got)
+			wj, _ := json.Marshal(want)
+			if string(gj) != string(wj) {
+				t.Fatalf("Unmarshal into the %d-th type named `target` (order %v) gives %s, yaml.v3 gives %s\ndocument: %s", which, order, gj, wj, yb)
+			}
+		}
+		recSameName.Case(ev.Hash(fmt.Sprint(order), fmt.Sprint(m.ToMap())), len(seen) == 3)
+	})
+}
